@@ -522,12 +522,65 @@ Fixpoint split_frames (fuel : nat) (b : bytes) : option kvs :=
   end.
 Definition frames_of (b : bytes) : option kvs := split_frames (S (length b)) b.
 
+(* ----- programs over several parameter sets: VALUE semantics -----
+   The model has no pointers and no package state: a program is a fold over an environment of
+   values.  On the Go side CompressLevel / CompressWindowBits are *int and the readers decode
+   into an existing struct in place; that one set's Validate / Unmarshal can never be seen through
+   another set, nor influence a later Validate, is tied by running such programs on the real types. *)
+Inductive pstep :=
+| PSet (i : N) (p : params)             (* slot i := a fresh struct literal *)
+| PValidate (i : N)                     (* slot i .Validate() *)
+| PKV (i : N) (l : kvs)                 (* slot i .UnmarshalKeyValues(map) *)
+| PURLws (i : N) (vals : url_values)    (* websocket wrapper around slot i .UnmarshalURLValues *)
+| PURLwt (i : N) (vals : url_values)    (* webtransport wrapper *)
+| PBin (i : N) (b : bytes)              (* quic wrapper around slot i .Unmarshal *)
+| PConfig (i : N) (base : cconfig).     (* slot i .CompressConfig(base) *)
+
+Definition pstep_slot (st : pstep) : N :=
+  match st with PSet i _ | PValidate i | PKV i _ | PURLws i _ | PURLwt i _ | PBin i _ | PConfig i _ => i end.
+
+(* what is observed after each step: did the call succeed, the derived config (PConfig only), and
+   EVERY slot as it is now (pointer fields dereferenced) *)
+Record pobs := mkPO { po_ok : bool; po_cfg : option cconfig; po_env : list params }.
+
+Definition env_get (i : N) (env : list params) : params := nth (N.to_nat i) env p0.
+Fixpoint env_set_nat (i : nat) (v : params) (env : list params) : list params :=
+  match env, i with
+  | [], _ => []
+  | _ :: e, O => v :: e
+  | x :: e, S i' => x :: env_set_nat i' v e
+  end.
+Definition env_set (i : N) (v : params) (env : list params) : list params := env_set_nat (N.to_nat i) v env.
+
+(* a reader that fails leaves a partly written struct; the harness then resets the slot to the
+   zero value, and so does the model *)
+Definition read_into (i : N) (r : option params) (env : list params) : list params * (bool * option cconfig) :=
+  match r with
+  | Some p' => (env_set i p' env, (true, None))
+  | None => (env_set i p0 env, (false, None))
+  end.
+
+Definition prog_step (env : list params) (st : pstep) : list params * (bool * option cconfig) :=
+  match st with
+  | PSet i p => (env_set i p env, (true, None))
+  | PValidate i =>
+      match validate (env_get i env) with
+      | Some p' => (env_set i p' env, (true, None))
+      | None => (env, (false, None))
+      end
+  | PKV i l => read_into i (unmarshal_kv_into (env_get i env) l) env
+  | PURLws i vals | PURLwt i vals => read_into i (unmarshal_url_into (env_get i env) vals) env
+  | PBin i b => read_into i (unmarshal_bin_into (env_get i env) b) env
+  | PConfig i base => (env, (true, Some (compress_config (env_get i env) base)))
+  end.
+
 Inductive neg_input :=
 | InParams (p : params) (b1 b2 : cconfig)   (* a parameter set and two local base configs *)
 | InKV (init : params) (l : kvs)            (* an arbitrary key/value map read into [init] *)
 | InURL (vals : url_values)                 (* arbitrary URL values *)
 | InBin (b : bytes)                         (* arbitrary bytes for the binary reader *)
-| InDial (dc : dial_config).                (* a dial configuration *)
+| InDial (dc : dial_config)                 (* a dial configuration *)
+| InProg (nslots : N) (steps : list pstep).  (* a short program over nslots NegotiationParams values (all zero at first) *)
 
 Inductive neg_obs :=
 | ObsParams
@@ -543,7 +596,8 @@ Inductive neg_obs :=
 | ObsKV (r_kv r_ws r_wt : option params)
 | ObsURL (r_ws r_wt : option params)
 | ObsBin (r : option params)
-| ObsDial (p : params).
+| ObsDial (p : params)
+| ObsProg (obs : list pobs).            (* one observation per step *)
 
 Record neg_case := mkNegCase { nc_in : neg_input; nc_obs : neg_obs }.
 
@@ -582,6 +636,17 @@ Fixpoint match_frames (fuel : nat) (b : bytes) (l : kvs) : bool :=
   end.
 Definition framing_of (l : kvs) (b : bytes) : bool := match_frames (length l) b l.
 
+Definition env_eqb : list params -> list params -> bool := list_beq _ params_eqb.
+Fixpoint prog_corr (env : list params) (steps : list pstep) (obs : list pobs) : bool :=
+  match steps, obs with
+  | [], [] => true
+  | st :: steps', o :: obs' =>
+      let r := prog_step env st in
+      Bool.eqb (fst (snd r)) (po_ok o) && opt_eqb cconfig_eqb (snd (snd r)) (po_cfg o)
+      && env_eqb (fst r) (po_env o) && prog_corr (fst r) steps' obs'
+  | _, _ => false
+  end.
+
 Definition is_some_o (o : option params) : bool := match o with Some _ => true | None => false end.
 Definition neg_corr (c : neg_case) : bool :=
   match nc_in c, nc_obs c with
@@ -615,6 +680,7 @@ Definition neg_corr (c : neg_case) : bool :=
       oparams_eqb (unmarshal_url vals) rws && oparams_eqb (unmarshal_url vals) rwt
   | InBin b, ObsBin r => oparams_eqb (unmarshal_bin b) r
   | InDial dc, ObsDial p => params_eqb (dial_params dc) p
+  | InProg n steps, ObsProg obs => prog_corr (repeat p0 (N.to_nat n)) steps obs
   | _, _ => false
   end.
 
@@ -744,6 +810,52 @@ Definition all_fit16 (kv : kvs) : bool :=
   forallb (fun e => (N.of_nat (length (fst e)) <? 65536) && (N.of_nat (length (snd e)) <? 65536)) kv.
 Definition kv_all_utf8 (l : kvs) : bool := forallb (fun kv => utf8_valid (fst kv) && utf8_valid (snd kv)) l.
 
+(* programs: judged on the observations alone, step by step, [before] being the environment the
+   implementation showed after the previous step.
+   - no sharing: a step on slot i leaves every other slot exactly as it was;
+   - Validate depends on nothing but its receiver: valid -> accepted, only the default level
+     filled in; invalid -> refused, receiver unchanged;
+   - a fresh literal is what was written; a failed reader leaves the (reset) zero value;
+   - the config of a set naming type, level and window is [eff_spec] of those. *)
+Fixpoint others_same_at (i : option nat) (a b : list params) : bool :=
+  match a, b with
+  | [], [] => true
+  | x :: a', y :: b' =>
+      match i with
+      | Some O => others_same_at None a' b'
+      | Some (S k) => params_eqb x y && others_same_at (Some k) a' b'
+      | None => params_eqb x y && others_same_at None a' b'
+      end
+  | _, _ => false
+  end.
+Definition pstep_ok (before : list params) (st : pstep) (o : pobs) : bool :=
+  let i := pstep_slot st in
+  let after := po_env o in
+  let a := env_get i before in
+  let a' := env_get i after in
+  others_same_at (Some (N.to_nat i)) before after
+  && match st with
+     | PSet _ p => po_ok o && params_eqb a' p
+     | PValidate _ =>
+         if valid_set a then po_ok o && params_eqb a' (validated_spec a)
+         else negb (po_ok o) && params_eqb a' a
+     | PConfig _ base =>
+         env_eqb before after
+         && match po_cfg o, p_level a, p_bits a with
+            | Some cfg, Some l, Some w =>
+                if named_comp (p_comp a) then eff_eqb (effective cfg) (eff_spec (p_comp a) l w) else true
+            | None, _, _ => false
+            | _, _, _ => true
+            end
+     | _ => if po_ok o then true else params_eqb a' p0
+     end.
+Fixpoint prog_ok (before : list params) (steps : list pstep) (obs : list pobs) : bool :=
+  match steps, obs with
+  | [], [] => true
+  | st :: steps', o :: obs' => pstep_ok before st o && prog_ok (po_env o) steps' obs'
+  | _, _ => false
+  end.
+
 Definition neg_ok (c : neg_case) : bool :=
   match nc_in c, nc_obs c with
   | InParams p b1 b2, ObsParams vld kv uws uwt bin rkv rws rwt rbin pbin rperm cfg1 cfg2 merr =>
@@ -802,6 +914,7 @@ Definition neg_ok (c : neg_case) : bool :=
       && bytes_eqb (p_enc p) (dc_enc dc) && bytes_eqb (p_tid p) (dc_tid dc)
       && Bool.eqb (p_reconnect p) (dc_reconnect dc) && bytes_eqb (p_tgid p) (dc_tgid dc)
       && (p_tgcount p =? dc_tgcount dc)%Z && (p_tgidx p =? dc_tgidx dc)%Z
+  | InProg n steps, ObsProg obs => prog_ok (repeat p0 (N.to_nat n)) steps obs
   | _, _ => false
   end.
 
